@@ -273,6 +273,20 @@ fn build_consumer_inner(name: &str, cases: &[CaseCode], with_serde_dep: bool, ex
                     }
                 }
             }
+            // a diagnostic without a usable span (e.g. E0391 "cycle detected when computing layout of `case_12::w::String`"):
+            // the module path in its text names the case
+            if owner.is_none() {
+                if let Some(pos) = text.find("case_") {
+                    let digits: String = text[pos + 5..].chars().take_while(|c| c.is_ascii_digit()).collect();
+                    if text[pos + 5 + digits.len()..].starts_with("::") {
+                        if let Ok(id) = digits.parse::<usize>() {
+                            if live.iter().any(|c| c.id == id) {
+                                owner = Some(id);
+                            }
+                        }
+                    }
+                }
+            }
             match owner {
                 Some(id) => failed_now.entry(id).or_default().push(format!("{}: {}", code, text.chars().take(1000).collect::<String>())),
                 None => out.global_errors.push(format!("{}: {}", code, text.chars().take(300).collect::<String>())),
